@@ -86,11 +86,15 @@ def build_config(entrypoint, include_none=False):
 
     config = {}
     configurable = entrypoint_configurables[entrypoint]
-    for c in reversed(configurable.mro()):
-        if issubclass(c, NbdimeConfigurable):
-            recursive_update(config, config_instance(c).configured_traits(c), include_none)
-            if (c.__name__ in disk_config):
-                recursive_update(config, disk_config[c.__name__], include_none)
+    sections = [c for c in reversed(configurable.mro()) if issubclass(c, NbdimeConfigurable)]
+    # First the built-in defaults of all sections, then what is configured on
+    # disk, so that the default of a specific section (e.g. the port of Server)
+    # does not override a value configured in a more general section (Web)
+    for c in sections:
+        recursive_update(config, config_instance(c).configured_traits(c), include_none)
+    for c in sections:
+        if (c.__name__ in disk_config):
+            recursive_update(config, disk_config[c.__name__], include_none)
 
     return config
 
